@@ -1561,6 +1561,9 @@ def ADC(
     else:
         signal = input
 
+    if np.issubdtype(np.asarray(signal).dtype, np.integer):
+        signal = np.asarray(signal, dtype=float)  # raw integer counts: unsigned or narrow dtypes would wrap around below
+
     if fs is not None:
         signal = sg.resample(signal, int(input.len() * fs / input.fs()))
 
